@@ -90,10 +90,17 @@ Definition fstep_run (c : cfg) (h : fstate) (st : fstep) : fstate :=
                 | None => {| fs_s := s'; fs_nom := fs_nom h; fs_alts := fs_alts h; fs_defer := fs_defer h; fs_ok := false |}
                 end
             | _ =>
-                {| fs_s := s'; fs_nom := fs_nom h;
+                (* a stable Set that returns an error may have taken effect (BoltDB: the
+                   transaction is written, its last fsync fails); readers then see the new
+                   value.  Every other failed call is invisible in the running process *)
+                let nom1 := match o, spec_accepts (fs_nom h) o with
+                            | OSet _ _ _, Some nom' => if spst_eqb (observed s') nom' then nom' else fs_nom h
+                            | _, _ => fs_nom h
+                            end in
+                {| fs_s := s'; fs_nom := nom1;
                    fs_alts := fs_alts h ++ flat_map (fun a => match spec_accepts a o with Some a' => [a'] | None => [] end) (fs_alts h);
                    fs_defer := match o with OStore _ => o :: fs_defer h | _ => fs_defer h end;
-                   fs_ok := fs_ok h && spst_eqb (observed s') (fs_nom h)
+                   fs_ok := fs_ok h && spst_eqb (observed s') nom1
                             (* without an injected fault an accepted call must not fail,
                                unless an earlier fault left the WAL refusing writes *)
                  |}
@@ -128,12 +135,14 @@ Definition fault_init (s0 : sstate) : fstate :=
   {| fs_s := s0; fs_nom := e; fs_alts := [e]; fs_defer := []; fs_ok := true |}.
 
 (* C10: for every history of calls in which any I/O action (write, fsync, create --
-   with or without leaving the empty file behind --, metadata commit, stable write)
+   with or without leaving the empty file behind --, metadata commit, stable write --
+   the last two with or without taking effect although they report the failure --)
    fails, and/or every file deletion of a call fails, and/or the directory listing of
    an Open fails,
      - readers of the running process always see exactly the state in which the
        calls that returned nil are applied and those that returned an error are not
-       (no acknowledged entry lost or altered; nothing of a failed StoreLogs visible)
+       (no acknowledged entry lost or altered; nothing of a failed StoreLogs visible);
+       only a stable Set that returned an error may show its value
      - a call that returned nil was acceptable to the specification
      - after a restart or a clean reopen the WAL opens and presents a state in which
        every call that returned an error is applied in full or not at all. *)
